@@ -340,3 +340,21 @@ prop("C11", level="exploration",
      min_nontrivial=dict(quick=2000, thorough=40000),
      min_counters=dict(multi_message_streams=dict(quick=500, thorough=10000)),
      assumptions=["well-formed = constructible through the message constructors with dag-cbor-encodable values"])
+
+prop("C12", level="exploration",
+     stages=[
+         dict(pkg="wire", test="TestFuzzDecode", sub="decode", race=True, cases=dict(quick=50000, thorough=2000000), timeout=7200),
+         # live node on mocknet: one child process per 200 inputs, journal written before every input
+         dict(pkg="wire", test="TestStreamFuzz", sub="stream", race=True, cases=dict(quick=3000, thorough=60000), batch=200, timeout=3600),
+     ],
+     technique="runtime monitoring: hostile byte streams (mutations of valid encodings + structurally valid hostile messages) sent over real libp2p mocknet streams to a live default-configured node in child processes; survival + canary request, exactly-one ReceiveError + stream reset per malformed input (reference classification by an independent frame reader), recomputed block CIDs and id lengths; race detector / checkptr",
+     level_text=("(a) 50k / 2M mutated inputs through FromNet with every decoded message re-checked (block key == CID recomputed from its prefix and bytes, ids "
+                 "16 bytes); (b) 3k / 60k inputs written to real streams of a live default-configured impl.New node behind network.NewFromLibp2pHost on a "
+                 "libp2p mocknet, in child processes of 200 inputs with a journal: the node must survive, a malformed input must produce exactly one "
+                 "ReceiveError and a stream reset, a well-formed one none, and a valid canary request on a fresh stream must be served after every 25 inputs."),
+     level_note="Whether an input is malformed is decided by an independent reader loop over the same frames (io.EOF at a frame boundary = clean end). A dead child is a violation whose replay is the journal's last input.",
+     rule=("One evaluation = one hostile input. Non-trivial = the input was delivered (in-process or on a stream) and its outcome decided; distinct by "
+           "(mutation kind, length, index); distinct_sets.mutation_kinds = mutation operators and structured hostile message kinds used (~40)."),
+     min_nontrivial=dict(quick=20000, thorough=500000),
+     min_counters=dict(canary_requests_served=dict(quick=100, thorough=2000), malformed_inputs=dict(quick=1000, thorough=20000)),
+     assumptions=["libp2p mocknet streams stand in for real transports (the stream handler, msgio framing and reset semantics are the real ones)"])
